@@ -54,13 +54,19 @@ def forbidden_tokens():
             hits.append(f'{os.path.relpath(f, LEAN)}: {m.group(0).strip()}')
     return hits
 
+def prop_modules(prop_id):
+    """Lean modules holding the property theorems of a property: Props/Cxx.lean plus any Props/Cxx_*.lean"""
+    d = os.path.join(LEAN, 'AY', 'Props')
+    files = [os.path.join(d, f'{prop_id}.lean')] + sorted(glob.glob(os.path.join(d, f'{prop_id}_*.lean')))
+    return [(f'AY.Props.{os.path.basename(f)[:-5]}', f) for f in files if os.path.exists(f)]
+
 def theorems_of(prop_id):
-    """names of the property theorems registered for a property: every `theorem Cxx_*` in Props/Cxx.lean"""
-    f = os.path.join(LEAN, 'AY', 'Props', f'{prop_id}.lean')
-    if not os.path.exists(f):
-        return []
-    body = strip_comments(open(f).read())
-    return re.findall(r'^theorem\s+(' + prop_id + r'_\w+)', body, flags=re.M)
+    """names of the property theorems registered for a property: every `theorem Cxx_*` in its Props modules"""
+    names = []
+    for _, f in prop_modules(prop_id):
+        body = strip_comments(open(f).read())
+        names += re.findall(r'^theorem\s+(' + prop_id + r'_\w+)', body, flags=re.M)
+    return names
 
 def audit(prop_id, names):
     """#print axioms for every theorem; returns {name: (ok, axioms or error)}"""
@@ -70,7 +76,9 @@ def audit(prop_id, names):
     os.makedirs(d, exist_ok=True)
     f = os.path.join(d, f'Audit{prop_id}.lean')
     with open(f, 'w') as fh:
-        fh.write(f'import AY.Props.{prop_id}\nopen AY\n')
+        for m, _ in prop_modules(prop_id):
+            fh.write(f'import {m}\n')
+        fh.write('open AY\n')
         for n in names:
             fh.write(f'#print axioms {n}\n')
     rc, out = sh(['lake', 'env', 'lean', f], cwd=LEAN, timeout=900)
@@ -101,7 +109,7 @@ def proof_obligations(prop_id):
     if not names:
         info['failed'].append('no theorem registered')
         return info
-    rc, out = lake_build([f'AY.Props.{prop_id}'])
+    rc, out = lake_build([m for m, _ in prop_modules(prop_id)])
     if rc != 0:
         info['build_ok'] = False
         errs = [l for l in out.splitlines() if 'error' in l][:8]
@@ -123,7 +131,7 @@ def proof_obligations(prop_id):
 
 def leanchecker(prop_id):
     """independent re-check of the compiled property module (thorough tier)"""
-    rc, out = sh(['lake', 'env', 'leanchecker', f'AY.Props.{prop_id}'], cwd=LEAN, timeout=1800)
+    rc, out = sh(['lake', 'env', 'leanchecker'] + [m for m, _ in prop_modules(prop_id)], cwd=LEAN, timeout=1800)
     return rc == 0, out[-500:]
 
 def setup():
